@@ -236,7 +236,7 @@ def DEC(*names):
 
 PROPS = {
     "C01": {
-        "bridge": RENDER + TABLES + NODES + DEC("Cast", "Match", "Default", "Hooks", "Function", "Util"),
+        "bridge": RENDER + TABLES + NODES + DEC("Cast", "Match", "Resolve", "Default", "Hooks", "Function", "Util"),
         "extra_modules": ["Convergen.Props.C04", "Convergen.Props.C16"],
         "sweeps": [sweep_front("mixed", 160, 6000, cats=["body", "slice", "hook", "header", "errflow"], compile=True),
                    sweep_front("matching", 100, 3000, cats=["body", "slice"], compile=True),
@@ -259,7 +259,7 @@ PROPS = {
         "assumptions": ["Go's typing of the emitted fragment is judged by the compiler, not modelled (GoTyping is limited to castNode_sound and the slice decision)"],
     },
     "C02": {
-        "bridge": RENDER + NODES + DEC("Cast", "Match", "Default"),
+        "bridge": RENDER + NODES + DEC("Cast", "Match", "Resolve", "Default"),
         "extra_modules": ["Convergen.Props.BuilderInv", "Convergen.Props.Cover", "Convergen.Props.Rooted"],
         "sweeps": [sweep_runtime(60, 1500), sweep_front("nesting", 120, 3000, cats=["body", "slice"]),
                    sweep_front("scoping", 80, 2000, cats=["body", "slice"]),
@@ -343,7 +343,7 @@ PROPS = {
         "assumptions": ["go/types relations are oracle tables"],
     },
     "C06": {
-        "bridge": RENDER + TABLES + NODES + DEC("Match", "Default", "Option", "Function"),
+        "bridge": RENDER + TABLES + NODES + DEC("Match", "Resolve", "Default", "Option", "Function"),
         "sweeps": [sweep_front("notations", 160, 4000, cats=["body", "slice", "stderr"]),
                    sweep_front("nesting", 80, 2000, cats=["body", "slice", "stderr"]),
                    sweep_front("casefold", 60, 2000, cats=["body", "slice", "stderr"]),
@@ -361,7 +361,7 @@ PROPS = {
         "assumptions": ["the order of the chain in the Go source is pinned by Bridge.precedence_eq"],
     },
     "C07": {
-        "bridge": RENDER + NODES + DEC("Cast", "Match", "Function"),
+        "bridge": RENDER + NODES + DEC("Cast", "Match", "Resolve", "Function"),
         "sweeps": [sweep_front("errors", 150, 4000, cats=["errflow", "body", "hook", "exit"]),
                    sweep_front("hooks", 80, 2000, cats=["errflow", "hook", "exit"]), sweep_runtime(50, 1500)],
         "rule": FRONT_RULE % "errors",
